@@ -141,12 +141,18 @@ impl TransportReader {
         &mut self,
         master_address: Option<EndpointAddress>,
     ) -> RequestGuard<'_> {
-        if let Some(TransportRequest::Request(info, _)) = self.peek_request() {
+        // malformed fragments are also only answered if they come from the required master
+        let source = match self.peek_request() {
+            Some(TransportRequest::Request(info, _)) => Some(info.addr.link),
+            Some(TransportRequest::Error(addr, _)) => Some(addr.link),
+            _ => None,
+        };
+        if let Some(source) = source {
             if let Some(required_master_addr) = master_address {
-                if info.addr.link != required_master_addr {
+                if source != required_master_addr {
                     tracing::warn!(
                         "Discarding ASDU from master address: {} (configured address == {})",
-                        info.addr.link.raw_value(),
+                        source.raw_value(),
                         required_master_addr.raw_value()
                     );
                     self.pop();
